@@ -10,7 +10,7 @@ from gridrv.oracles import datafiles
 PROP = "C12"
 TITLE = "Degree/size requests resolve to the smallest supported angular grid not below"
 REQUIRED_HOOKS = ["AngularGrid.__init__", "AngularGrid.__init__:raised"]
-REQUIRED_FAMILIES = ["degree-range", "size-range", "converter", "reject", "atomgrid-shells", "preset-shells"]
+REQUIRED_FAMILIES = ["degree-range", "size-range", "converter", "reject", "atomgrid-shells", "preset-shells", "pruned-shells"]
 BUDGET = {"quick": 240, "thorough": 2400}
 EXHAUSTIVE = {"quick": True, "thorough": True}
 RULE = (
@@ -19,7 +19,7 @@ RULE = (
     "consecutive integer requests per method (one case = one range, non-trivial when at least one grid was built and "
     "checked): both tiers enumerate every degree 0..max and every size 0..max of the 4 methods (exhaustive, about 115 000 "
     "constructions); thorough repeats all degrees and all table-boundary sizes with cache=False; plus converter sweeps over the whole size "
-    "range and random sequences, rejections above the maximum, and AtomGrid shells built from degree/size lists."
+    "range and random sequences, rejections above the maximum, AtomGrid shells built from degree/size lists (also both at once: sizes win), and pruned grids whose sectors are given by size, by degree or by both (sizes win) against the sector oracle shared with C05 and an independent size>=request test."
 )
 ASSUMPTIONS = [
     "the advertised (degree,size) pairs are those in the shipped file names <method>_<degree>_<size>.npz",
@@ -57,6 +57,8 @@ def cases(tier, seed):
         out.append(("reject", {"method": m}, 1.0))
         for k in range(4 if tier == "quick" else 40):
             out.append(("atomgrid-shells", {"method": m, "k": k}, 2.0))
+        for k in range(6 if tier == "quick" else 60):
+            out.append(("pruned-shells", {"method": m, "k": k, "given": ["sizes", "degrees", "both"][k % 3]}, 2.0))
     # presets through every angular method: no shell coarser than tabulated (clause shared with C05, whose monitor is reused)
     for pi, preset in enumerate(["coarse", "medium", "fine", "veryfine", "ultrafine", "insane", "sg_1", "sg_0", "sg_2", "g1", "g3"]):
         for mi, m in enumerate(METHODS):
@@ -140,7 +142,8 @@ def run_case(ctx, family, params):
         r = np.sort(rng.uniform(0.05, 5.0, nsh))
         rgrid = OneDGrid(r, np.ones(nsh), (0, np.inf))
         cap_d = min(dmax, 45)
-        if rng.random() < 0.5:
+        both = rng.random() < 0.3  # documented: "If both degrees and sizes are given, sizes are used"
+        if not both and rng.random() < 0.5:
             req = [int(v) for v in rng.integers(0, cap_d + 1, nsh)]
             with ctx.guard("atomgrid-shell-not-coarser", m):
                 at = AtomGrid(rgrid, degrees=req, method=m)
@@ -150,11 +153,62 @@ def run_case(ctx, family, params):
             cap_s = datafiles.resolve(m, degree=cap_d)[1]
             req = [int(v) for v in rng.integers(1, cap_s + 1, nsh)]
             with ctx.guard("atomgrid-shell-not-coarser", m):
-                at = AtomGrid(rgrid, sizes=req, method=m)
+                if both:
+                    ctx.hit("AtomGrid(degrees and sizes both given)")
+                    at = AtomGrid(rgrid, [int(v) for v in rng.integers(0, cap_d + 1, nsh)] if rng.random() < 0.7 else [int(rng.integers(0, cap_d + 1))], sizes=req, method=m)
+                else:
+                    at = AtomGrid(rgrid, sizes=req, method=m)
                 want = [datafiles.resolve(m, size=s) for s in req]
                 got_sizes = [int(at.indices[i + 1] - at.indices[i]) for i in range(nsh)]
                 ctx.check("atomgrid-shell-not-coarser", f"{m}:sizes", list(map(int, at.degrees)) == [w[0] for w in want] and got_sizes == [w[1] for w in want], detail={"req": req, "got": got_sizes})
                 ctx.check("atomgrid-shell-not-coarser", f"{m}:sizes>=req", all(g >= q for g, q in zip(got_sizes, req)))
+    elif family == "pruned-shells":
+        # "pruned ... atomic grids never get a shell coarser than asked for": sectors by size, by degree, and by both
+        # (documented: "If both d_sectors and s_sectors are given, s_sectors is used")
+        from gridrv.monitors import atomgrid_c05
+
+        dmax, smax = _max(m)
+        rng = ctx.rng
+        nsh = int(rng.integers(6, 40))
+        r = np.sort(rng.uniform(0.02, 8.0, nsh))
+        rgrid = OneDGrid(r, np.ones(nsh), (0, np.inf))
+        nsec = int(rng.integers(1, 6))
+        radius = float(rng.uniform(0.5, 2.5))
+        r_sectors = [float(v) for v in np.sort(rng.uniform(0.05, 4.0, nsec - 1))] if nsec > 1 else []
+        cap_d = min(dmax, 45)
+        cap_s = datafiles.resolve(m, degree=cap_d)[1]
+        d_sec = [int(v) for v in rng.integers(0, cap_d + 1, nsec)]
+        s_sec = [int(v) for v in rng.integers(1, cap_s + 1, nsec)]
+        given = params["given"]
+        form = [list, np.array, lambda v: np.array(v, dtype=np.int32)][int(rng.integers(0, 3))]
+        a = {"rgrid": rgrid, "radius": radius, "r_sectors": r_sectors, "d_sectors": None, "s_sectors": None, "center": None, "rotate": 0, "method": m}
+        subj = f"from_pruned:{m}:{given}"
+        with ctx.guard("pruned-not-coarser", subj):
+            if given == "sizes":
+                a["s_sectors"] = s_sec
+                at = AtomGrid.from_pruned(rgrid, radius, r_sectors=r_sectors, s_sectors=form(s_sec), method=m)
+            elif given == "degrees":
+                a["d_sectors"] = d_sec
+                at = AtomGrid.from_pruned(rgrid, radius, r_sectors=r_sectors, d_sectors=form(d_sec), method=m)
+            else:
+                a["d_sectors"], a["s_sectors"] = d_sec, s_sec
+                if rng.random() < 0.5:
+                    at = AtomGrid.from_pruned(rgrid, radius, r_sectors=r_sectors, d_sectors=form(d_sec), s_sectors=form(s_sec), method=m)
+                else:
+                    at = AtomGrid.from_pruned(rgrid, radius, r_sectors, form(d_sec), s_sectors=form(s_sec), method=m)
+            ctx.hit("AtomGrid.from_pruned:" + given)
+            atomgrid_c05.check_pruned(ctx, at, a, tag=subj)
+            # independent of the sector oracle above: the size of every shell against the request of the sector(s) the
+            # radius may belong to (tie band on the sector edges)
+            edges = np.asarray(r_sectors, dtype=float) * radius
+            lo, hi = atomgrid_c05.sector_span(rgrid.points, edges) if nsec > 1 else (np.zeros(nsh, int), np.zeros(nsh, int))
+            got_sizes = [int(at.indices[i + 1] - at.indices[i]) for i in range(nsh)]
+            if given == "degrees":
+                asked = [min(datafiles.resolve(m, degree=d_sec[k])[1] for k in range(lo[i], hi[i] + 1)) for i in range(nsh)]
+            else:
+                asked = [min(s_sec[k] for k in range(lo[i], hi[i] + 1)) for i in range(nsh)]
+            bad = [i for i in range(nsh) if got_sizes[i] < asked[i]]
+            ctx.check("pruned-not-coarser", subj, not bad, sig="shell-coarser-than-its-sector-asks", detail={"first_bad_shell": bad[:1], "got": [got_sizes[i] for i in bad[:1]], "asked": [asked[i] for i in bad[:1]], "s_sectors": a["s_sectors"], "d_sectors": a["d_sectors"]})
     elif family == "preset-shells":
         from gridrv.monitors import atomgrid_c05
         from gridrv.oracles import presets_c05
